@@ -83,7 +83,7 @@ def _add(
     n_added_records[0] += uint64(value)
     for row in range(depth):
         col = fasthash64(key, row) % width
-        if np.all(key_array == lhh[row, col]):
+        if key_lens[row, col] == key_len and np.all(key_array == lhh[row, col]):
             if value < uint_maxval - lhh_count[row, col]:
                 lhh_count[row, col] += value
             else:
@@ -218,6 +218,7 @@ def _merge(
     uint32(
         uint8[:, :, :],
         uint32[:, :],
+        uint8[:, :],
         uint64,
         uint64,
         uint64,
@@ -225,7 +226,7 @@ def _merge(
         uint8,
     )
 )
-def _max_count(lhh, lhh_count, width, depth, max_key_len, key, key_len):
+def _max_count(lhh, lhh_count, key_lens, width, depth, max_key_len, key, key_len):
     """
     Numba function to provide the estimated count for the given `key`
     """
@@ -238,7 +239,11 @@ def _max_count(lhh, lhh_count, width, depth, max_key_len, key, key_len):
     max_count = uint32(0)
     for row in range(depth):
         col = fasthash64(key, row) % width
-        if np.all(key_array == lhh[row, col]) and lhh_count[row, col] > max_count:
+        if (
+            key_lens[row, col] == key_len
+            and np.all(key_array == lhh[row, col])
+            and lhh_count[row, col] > max_count
+        ):
             max_count = lhh_count[row, col]
 
     return max_count
@@ -760,6 +765,7 @@ class HeavyHitters:
                     max_count = _max_count(
                         self.lhh,
                         self.lhh_count,
+                        self.key_lens,
                         self.width,
                         self.depth,
                         self.max_key_len,
@@ -786,6 +792,7 @@ class HeavyHitters:
         max_count = _max_count(
             self.lhh,
             self.lhh_count,
+            self.key_lens,
             self.width,
             self.depth,
             self.max_key_len,
